@@ -108,7 +108,7 @@ def build(reg):
                  raises={"ProtocolError": "not (%s)" % KW_OK.replace("value", "kwargs")}, **common)
     # payload transparency attributes: a standard name or "x_" + optionally [a-z][0-9a-z_]+   (WAMP payload passthru mode)
     lo, dg = z3.Range("a", "z"), z3.Range("0", "9")
-    custom = z3.Concat(_lit("x_"), z3.Option(z3.Concat(lo, z3.Plus(_cls(lo, dg, _lit("_"))))))
+    custom = z3.Concat(_lit("x_"), z3.Loop(z3.Concat(lo, z3.Plus(_cls(lo, dg, _lit("_")))), 0, 1))
     reg.native_spec("enc_algo_ok", lambda ex, state, x: VBool(z3.InRe(x.t, z3.Union(_lit("cryptobox"), _lit("mqtt"), _lit("xbr"), custom))))
     reg.native_spec("enc_ser_ok", lambda ex, state, x: VBool(z3.InRe(x.t, z3.Union(
         _lit("json"), _lit("msgpack"), _lit("cbor"), _lit("ubjson"), _lit("flatbuffers"), custom))))
@@ -745,6 +745,24 @@ def replay(o):
     unit = o.get("unit") or o.get("name", "")
     fn = "id" if "check_or_raise_id" in unit else ("uri" if "check_or_raise_uri" in unit else
                                                     ("realm" if "realm_name" in unit else None))
+    if fn is None and "is_valid_enc" in unit:
+        from pyvc import replaylib as Rp
+        name = "is_valid_enc_algo" if "enc_algo" in unit else "is_valid_enc_serializer"
+        v = inp.get("enc_algo", inp.get("enc_serializer"))
+        code = _PARSE_HARNESS.split("wmsg = build(case")[0] + '''
+v = build(case["value"])
+ref = enc_algo_ok if case["fn"] == "is_valid_enc_algo" else enc_ser_ok
+want = type(v) is str and ref(v)
+try:
+    got = bool(getattr(M, case["fn"])(v))
+except Exception as e:
+    got = "crashed:" + type(e).__name__
+print(json.dumps({"got": got, "want": want, "value": repr(v)}))
+'''
+        out = Rp.run_py(code.replace("CASE", repr({"fn": name, "value": v})))
+        bad = isinstance(out, dict) and "got" in out and out.get("got") != out.get("want")
+        return {"reproduced": bool(bad), "observed": out, "detail": "the real %s called on the counterexample value, compared "
+                                                                     "with a reference written from the WAMP text" % name}
     if fn is None and "Serializer.unserialize" in unit:
         from pyvc import replaylib as Rp
         out = Rp.run_py(_UNSER_HARNESS, timeout=120)
